@@ -809,7 +809,7 @@ func (x *Exec) evalCall(ce *CEnv, n *ECall) *Val {
 			if f := pkg.Func(id.Name); f != nil {
 				var args []*Val
 				for i, a := range n.Args {
-					args = append(args, x.coerce(x.eval(ce, a), f.Signature.Params().At(i).Type()))
+					args = append(args, x.convArg(x.eval(ce, a), f.Signature.Params().At(i).Type()))
 				}
 				return x.specInline(ce, f, args)
 			}
@@ -839,7 +839,7 @@ func (x *Exec) evalCall(ce *CEnv, n *ECall) *Val {
 					}
 					var args []*Val
 					for i, a := range n.Args {
-						args = append(args, x.coerce(x.eval(ce, a), f.Signature.Params().At(i).Type()))
+						args = append(args, x.convArg(x.eval(ce, a), f.Signature.Params().At(i).Type()))
 					}
 					return x.specInline(ce, f, args)
 				}
@@ -876,7 +876,7 @@ func (x *Exec) evalMethodCall(ce *CEnv, recv *Val, name string, argEs []Expr) *V
 		if f, rv := x.devirt(recv, name); f != nil {
 			args := []*Val{rv}
 			for k, a := range argEs {
-				args = append(args, x.coerce(x.eval(ce, a), f.Signature.Params().At(k).Type()))
+				args = append(args, x.convArg(x.eval(ce, a), f.Signature.Params().At(k).Type()))
 			}
 			return x.specInline(ce, f, args)
 		}
@@ -886,7 +886,7 @@ func (x *Exec) evalMethodCall(ce *CEnv, recv *Val, name string, argEs []Expr) *V
 				sig := m.Type().(*types.Signature)
 				var args []*Val
 				for k, a := range argEs {
-					args = append(args, x.coerce(x.eval(ce, a), sig.Params().At(k).Type()))
+					args = append(args, x.convArg(x.eval(ce, a), sig.Params().At(k).Type()))
 				}
 				key := normalizeFuncName(m.FullName())
 				res := x.pureInvoke(key, x.asTerm(recv), m, args, sig.Results())
@@ -951,7 +951,7 @@ func (x *Exec) evalMethodCall(ce *CEnv, recv *Val, name string, argEs []Expr) *V
 	args := []*Val{recv}
 	sig := f.Signature
 	for k, a := range argEs {
-		args = append(args, x.coerce(x.eval(ce, a), sig.Params().At(k).Type()))
+		args = append(args, x.convArg(x.eval(ce, a), sig.Params().At(k).Type()))
 	}
 	return x.specInline(ce, f, args)
 }
@@ -1509,4 +1509,19 @@ func (x *Exec) specInlineClosure(ce *CEnv, cl *Val, args []*Val) *Val {
 		ce.st = bc.st
 	}()
 	return x.callStatic(bc, nil, cl.Fn, cl.Binds, args)
+}
+
+// convArg adapts a specification-level argument to a parameter type: untyped
+// constants are coerced, and a concrete value passed for an interface parameter
+// is wrapped like Go's implicit conversion does.
+func (x *Exec) convArg(v *Val, pt types.Type) *Val {
+	v = x.coerce(v, pt)
+	if _, isI := pt.Underlying().(*types.Interface); isI && v != nil && v.Typ != nil {
+		if _, srcI := v.Typ.Underlying().(*types.Interface); !srcI && !isNilConst(v) {
+			if _, isTP := v.Typ.(*types.TypeParam); !isTP {
+				return x.makeInterface(v, v.Typ, pt)
+			}
+		}
+	}
+	return v
 }
